@@ -7,7 +7,7 @@ open Histrun
 module M = Model
 
 let action_of (o : M.op) = match o.M.o_in with
-  | M.ICreate _ -> "CREATE_TRANSACTION" | M.IRevert _ -> "REVERT_TRANSACTION"
+  | M.ICreate _ | M.IScript _ -> "CREATE_TRANSACTION" | M.IRevert _ -> "REVERT_TRANSACTION"
   | M.ISetMeta _ -> "ADD_METADATA" | M.IDelMeta _ -> "DELETE_METADATA"
 
 let entry_sx (tag, r) =
